@@ -32,7 +32,8 @@ class Inst:
     self.frees = {f["name"]: f for f in self.cd.get("frees", [])}
     for sb in self.cd["subs"]:
       if sb["dims"]:
-        self.subs[sb["name"]] = [Inst(spec, sb["cls"], "%s.%s[%d]" % (prefix, sb["name"], i), self)
+        cl = sb.get("cls_list") or [sb["cls"]] * sb["dims"][0]
+        self.subs[sb["name"]] = [Inst(spec, cl[i], "%s.%s[%d]" % (prefix, sb["name"], i), self)
                                  for i in range(sb["dims"][0])]
       else:
         self.subs[sb["name"]] = Inst(spec, sb["cls"], "%s.%s" % (prefix, sb["name"]), self)
